@@ -101,6 +101,10 @@ def build_table(tb: dict, perm=None) -> pymrio.IOSystem:
     io.Y = pd.DataFrame(Y, index=ind, columns=fdi)
     io.x = pd.DataFrame(x, index=ind, columns=["indout"])
     io.A = pymrio.calc_A(io.Z, io.x)
+    if tb.get("A_round") is not None:
+        # coefficients as published with a fixed number of decimals: consistent with Z and x to within the tolerance
+        # the model accepts, not bit for bit
+        io.A = io.A.round(int(tb["A_round"]))
     if perm is not None:
         r = perm.get("rows")
         c = perm.get("cols")
@@ -251,7 +255,8 @@ def gen_event(rng: random.Random, tb: dict, cfg: dict, T: int, etype=None, capit
         ev["recovery_tau"] = rng.choice([1, 2, 3, 5, 10])
         ev["curve"] = rng.choice(["linear", "linear", "convexe", "convexe noscale", "concave"])
         return ev
-    emf = rng.choice([cfg["monetary_factor"], cfg["monetary_factor"], 1, 10**3, 10**6])
+    # (factors that are not powers of ten are documented too: currency conversion)
+    emf = rng.choice([cfg["monetary_factor"], cfg["monetary_factor"], 1, 10**3, 10**6, 800, 2_500_000])
     ev["emf"] = emf
     mf = cfg["monetary_factor"]
     # impacts as a fraction of the capital stock of the industry, expressed in the event's unit
@@ -272,6 +277,8 @@ def gen_event(rng: random.Random, tb: dict, cfg: dict, T: int, etype=None, capit
         ev["house"] = {_key(r, c): tot * rng.choice([0.1, 0.5, 1.0]) for r, c in hh}
     else:
         ev["house"] = None
+    # which public constructor builds it (the scalar one is given weights proportional to the impacts)
+    ev["ctor"] = rng.choice(["series", "series", "industries"])
     if etype == "rebuild":
         ev["rebuild_tau"] = rng.choice([1, 2, 2, 3, 5, 30, 60])
         k = rng.randint(1, min(3, len(secs)))
@@ -313,6 +320,19 @@ def build_event(ev: dict, order=None):
             recovery_tau=ev["recovery_tau"], recovery_function=ev["curve"],
         )
     house = _mi(reorder(ev["house"]), ["region", "category"]) if ev.get("house") else None
+    if ev.get("ctor") == "industries":
+        # the same event through the scalar constructor: total impact + industry weights proportional to the impacts
+        dct = reorder(ev["impact"])
+        total = float(sum(dct.values()))
+        inds = [tuple(kk.split("|")) for kk in dct]
+        w = pd.Series(list(dct.values()), index=pd.MultiIndex.from_tuples(inds, names=["region", "sector"]), dtype=float)
+        kw = dict(affected_industries=inds, impact_distrib=w, occurrence=ev["occ"], duration=ev["dur"], name=ev.get("name"),
+                  event_monetary_factor=ev["emf"], households_impact=house)
+        if ev["type"] == "rebuild":
+            return bev.from_scalar_industries(total, event_type="rebuild", rebuild_tau=ev["rebuild_tau"],
+                                              rebuilding_sectors=reorder(ev["reb_sectors"]), rebuilding_factor=ev["factor"], **kw)
+        return bev.from_scalar_industries(total, event_type="recovery", recovery_tau=ev["recovery_tau"],
+                                          recovery_function=ev["curve"], **kw)
     if ev["type"] == "rebuild":
         return bev.from_series(
             imp, event_type="rebuild", occurrence=ev["occ"], duration=ev["dur"], name=ev.get("name"),
